@@ -401,8 +401,10 @@ def check(pid, tier, cfg, replay=None):
             found = None
             if harness_ok or res is not None:
                 for s2 in (seed + 1000, seed + 2000, seed + 3000):
-                    rc, out, r2 = run_harness(pid, "thorough", s2, outdir + "-search", log,
-                                              cfg.get("harness_timeout", {}).get("search", 1200))
+                    sn = cfg.get("search_n")
+                    rc, out, r2 = run_harness(pid, "quick" if not sn else "thorough", s2, outdir + "-search", log,
+                                              cfg.get("harness_timeout", {}).get("search", 1200),
+                                              ["-n", str(sn)] if sn else None)
                     if r2 is not None:
                         for f in r2.get("failures", []):
                             if match_known(pid, f.get("canonical", ""), known) is None:
